@@ -187,6 +187,11 @@ func (p *Parser) Error(msg string, token *Token) *Error {
 			// Set to last token
 			if len(p.tokens) > 0 {
 				token = p.tokens[len(p.tokens)-1]
+			} else {
+				// No tokens at all (a tag without arguments): fall back to the
+				// token we were told is the last one (the tag's name), so the
+				// error still carries a position.
+				token = p.lastToken
 			}
 		}
 	}
